@@ -386,7 +386,7 @@ POW_Y = ["0", "1", "(-1)", "2", "(-2)", "3", "(-3)", "10", "1024", "(-1074)", "(
          # floats one or a few ulps from a whole number: still fractional, so a negative base must be refused
          "0.9999999999999998", "1.9999999999999998", "2.0000000000000004", "2.999999999999993", "((1-0.9)*10)",
          "(-1.0000000000000002)", "4503599627370495.5"]
-LOG_X = ["0", "1", "(-1)", "2", "8", "(-8)", "10^400", "(1/2)", "(-1/2)", "(1/10^300)", "(1/10^400)", "(1+1/10^400)",
+LOG_X = ["1000.0000005", "2.718281828", "1024.0000005", "125.00000006", "999.9999995", "0.10000000004", "0", "1", "(-1)", "2", "8", "(-8)", "10^400", "(1/2)", "(-1/2)", "(1/10^300)", "(1/10^400)", "(1+1/10^400)",
          "(10^400+1/2)", "0.5", "(-0.5)", "5.0e-324", "1.0000000000000002", "0.9999999999999999", "e", "3!", "(0*3!)", "171!",
          "0.0", "1.5e-324"]
 LOG_B = ["0", "1", "(-1)", "(-2)", "2", "10", "10^400", "(1/2)", "(-1/2)", "(1/10^300)", "(1/10^400)", "(1+1/10^400)",
@@ -751,6 +751,10 @@ def absurd_table_probe(ctx):
 
 
 def run(ctx):
+    C.seam_check(ctx["report"], ctx["rundir"], "C16", wrappers=[],
+                 pairs=[("ln(10000000!/9999998!)", "ln(10000000*9999999)"), ("log(C(100000, 2), 3)", "log(4999950000, 3)"), ("x = 100000000!/99999999!; ln(x)", "ln(100000000)"),
+                        ("log10(20000!/19999!)", "log10(20000)"), ("log2(C(20000, 1))", "log2(20000)"), ("sqrt(20000!/19998!)", "sqrt(20000*19999)"),
+                        ("sin(5e-10 rad) == sin(5e-10)", "1"), ("sin(2e-10 rad + 2e-10 rad) == sin(4e-10)", "1")])
     C.config_matrix(ctx["report"], ctx["rundir"], "C16", ["sin(3.14159265)", "cos(1.57079633)", "sin(180.0000003 deg)", "tan(0.5)", "log10(1000.0000005)", "ln(2.718281828)", "log2(1024.0000005)", "log(125.00000006, 5)", "sqrt(2*10^16)", "ln(10000000!/9999998!)", "log(C(100000, 2), 3)", "sin(5e-10 rad)", "2^0.5", "floor(7/2)", "round(5/2)", "int(-7/2)", "sqrt(-1)", "log(8, 1)"])
     absurd_table_probe(ctx)
     import sys
